@@ -485,9 +485,20 @@ static void file_cases(vt::Rng& r, const string& dir, bool quick) {
     mkdir(root.c_str(), 0755);
     vector<string> names;
     int n = (int)r.below(9);
+    // small scope: the first tree holds EVERY name of 1..3 characters over {'.', 'a', '-'} other than "." and ".." themselves
+    vector<string> shorts;
+    for (int len = 1; len <= 3; len++)
+      for (int code = 0, lim = len == 1 ? 3 : len == 2 ? 9 : 27; code < lim; code++) {
+        string nm;
+        for (int k = 0, c = code; k < len; k++, c /= 3) nm.push_back(".a-"[c % 3]);
+        if (nm != "." && nm != "..") shorts.push_back(nm);
+      }
+    if (t == 0) n = (int)shorts.size();
     for (int i = 0; i < n; i++) {
       string nm;
-      switch (r.below(6)) {
+      if (t == 0) nm = shorts[i];
+      else switch (r.below(7)) {
+        case 6: nm = shorts[r.below(shorts.size())]; break;
         case 0: nm = "with space " + to_string(i); break;
         case 1: nm = ".hidden" + to_string(i); break;
         case 2: nm = string(255 - 2, 'L') + to_string(i % 10) + "x"; break;
